@@ -44,6 +44,10 @@ pub struct Case {
     /// the writer thread is inside one of its periodic stream flushes
     #[serde(default)]
     pub during_flush: bool,
+    /// drop-handle / detach paths only: the handle is dropped by a thread that is unwinding from a
+    /// panic (a guard object owns it), as happens when a service's main function panics
+    #[serde(default)]
+    pub unwinding: bool,
 }
 
 metrique_writer::sink::global_entry_sink! { C05Global }
@@ -143,7 +147,14 @@ pub fn check(case: &Case) -> CaseResult {
                 })
             };
             log.push(Ev::HandleDropStart);
-            if case.end == End::GlobalDetach {
+            if case.unwinding {
+                if case.end == End::GlobalDetach {
+                    no_panic("detach-while-unwinding", || drop_while_unwinding(attach.take()))?;
+                } else {
+                    no_panic("queue-shutdown-while-unwinding", || drop_while_unwinding(handle.take()))?;
+                }
+                classes.push("handle-dropped-while-unwinding");
+            } else if case.end == End::GlobalDetach {
                 no_panic("detach", || drop(attach.take()))?;
             } else {
                 no_panic("queue-shutdown", || drop(handle.take()))?;
@@ -299,7 +310,7 @@ pub fn check(case: &Case) -> CaseResult {
     Ok(classes)
 }
 
-pub const RULE: &str = "histories of Append(n) / Clone / DropClone / FlushReq / Grant(k) on a typed or boxed queue whose writer is stalled behind a fuel gate, ended by (a) dropping the join handle while entries are still queued (a helper opens the gate after the drop began), (b) forgetting the join handle and dropping every queue handle - also with the last appends and the drop of the last handle placed while the writer thread is held inside one of its periodic stream flushes (harness-owned flush callback), (c) the same queue attached to a harness-declared global_entry_sink! and detached by dropping the AttachHandle; then appends after the end. Oracle over the event log: when the drop returns every entry appended before it began has reached the stream, the stream was flushed after the last of them and dropped; later appends never appear (try_append hands the entry back for a detached global); pending flush futures complete. Forget path, decided by counting: after the last queue handle is dropped the stream must be drained, flushed and dropped before 60 further periodic stream flushes are observed (else 'runs forever'); 10 s without either is inconclusive. Non-trivial = shutdown begins with entries still queued, or the forget path";
+pub const RULE: &str = "histories of Append(n) / Clone / DropClone / FlushReq / Grant(k) on a typed or boxed queue whose writer is stalled behind a fuel gate, ended by (a) dropping the join handle while entries are still queued (a helper opens the gate after the drop began; in 30% of these cases the drop is performed by a guard object while its thread unwinds from a panic), (b) forgetting the join handle and dropping every queue handle - also with the last appends and the drop of the last handle placed while the writer thread is held inside one of its periodic stream flushes (harness-owned flush callback), (c) the same queue attached to a harness-declared global_entry_sink! and detached by dropping the AttachHandle; then appends after the end. Oracle over the event log: when the drop returns every entry appended before it began has reached the stream, the stream was flushed after the last of them and dropped; later appends never appear (try_append hands the entry back for a detached global); pending flush futures complete. Forget path, decided by counting: after the last queue handle is dropped the stream must be drained, flushed and dropped before 60 further periodic stream flushes are observed (else 'runs forever'); 10 s without either is inconclusive. Non-trivial = shutdown begins with entries still queued, or the forget path";
 
 pub fn run(ctx: &mut Ctx) {
     ctx.assume("termination of the forgotten queue is decided by counting the writer's periodic stream flushes (flush interval 1 ms / 50 us), never by a wall-clock deadline");
@@ -308,7 +319,7 @@ pub fn run(ctx: &mut Ctx) {
         SubCfg::new("c05-shutdown", RULE, if q { 500 } else { 12_000 })
             .threads(ctx.tier.pick(4, 8))
             .shrink_iters(60)
-            .mandatory(&["entries-queued-at-shutdown", "forget-path", "drop-handle", "global-detach", "append-after-shutdown", "last-handle-dropped-during-periodic-flush"]),
+            .mandatory(&["entries-queued-at-shutdown", "forget-path", "drop-handle", "global-detach", "append-after-shutdown", "last-handle-dropped-during-periodic-flush", "handle-dropped-while-unwinding"]),
         || {
             (
                 any::<bool>(),
@@ -327,8 +338,9 @@ pub fn run(ctx: &mut Ctx) {
                 any::<u8>(),
                 any::<bool>(),
                 any::<bool>(),
+                prop::bool::weighted(0.3),
             )
-                .prop_map(|(boxed, ops, end, after, open_delay, flush_ms, during_flush)| Case {
+                .prop_map(|(boxed, ops, end, after, open_delay, flush_ms, during_flush, unwinding)| Case {
                     boxed,
                     ops,
                     end,
@@ -336,6 +348,7 @@ pub fn run(ctx: &mut Ctx) {
                     open_delay,
                     flush_ms,
                     during_flush,
+                    unwinding,
                 })
         },
         check,
